@@ -35,7 +35,7 @@ impl Prop for C09 {
         "C09"
     }
     fn rule_text(&self) -> String {
-        "case = defchords group or defchordsv2 table over 2-5 participating keys with overlapping chords, sub-chords, undefined supersets, (v2) both release behaviours, per-chord timeouts (T and 4T in one table) and a disabled layer; every chord and every single key outputs its own marker. Populations: 'target' (one key set pressed in a sampled permutation with inter-press gaps below / at / above the timeout, released in a sampled permutation), 'random' (mixed with a non-chord key). Oracle: defined chord completed within the timeout => its marker exactly once and no participant's single marker; released no later than shortly after the last participant's release; every pressed key is accounted for by exactly one marker whose key set contains it (nothing swallowed, nothing doubled), in press order. non-trivial = a multi-key chord marker was output; distinct = config x schedule hash.".into()
+        "case = defchords group or defchordsv2 table over 2-5 participating keys with overlapping chords, sub-chords, undefined supersets, (v2) both release behaviours, per-chord timeouts (T and 4T in one table) and a disabled layer; every chord and every single key outputs its own marker (v2: optionally through a one-key macro, which makes a chord that is performed twice visible). Populations: 'target' (one key set pressed in a sampled permutation with inter-press gaps below / at / above the timeout, released in a sampled permutation), 'random' (mixed with a non-chord key). Oracle: defined chord completed within the timeout => its marker exactly once and no participant's single marker; released no later than shortly after the last participant's release; every pressed key is accounted for by exactly one marker whose key set contains it (nothing swallowed, nothing doubled), in press order. non-trivial = a multi-key chord marker was output; distinct = config x schedule hash.".into()
     }
     fn runs(&self, tier: Tier) -> u64 {
         match tier {
@@ -66,11 +66,18 @@ impl Prop for C09 {
         let mut cfg = String::new();
         let release_beh: Vec<&str> = table.iter().map(|_| *r.pick(&["first-release", "all-released"])).collect();
         let use_disabled = v2 && r.chance(300);
+        // a key that taps a virtual key whose index equals the key code of a chord participant:
+        // virtual keys live in another row and must never be mistaken for the participant
+        let vk_collide = v2 && r.chance(200);
         if v2 {
             cfg.push_str(&format!("(defcfg concurrent-tap-hold yes chords-v2-min-idle {})\n", *r.pick(&[5u64, 5, 30])));
-            cfg.push_str(&format!("(defsrc {} f g)\n", keys.join(" ")));
-            cfg.push_str(&format!("(deflayer l0 {} 1 (layer-while-held l1))\n", SINGLE_M[..nk].join(" ")));
-            cfg.push_str(&format!("(deflayer l1 {} 1 _)\n", SINGLE_M[..nk].join(" ")));
+            cfg.push_str(&format!("(defsrc {} f g h)\n", keys.join(" ")));
+            let h_act = if vk_collide { format!("(on-press tap-vkey v{})", oscode_of(*r.pick(keys))) } else { "XX".to_string() };
+            cfg.push_str(&format!("(deflayer l0 {} 1 (layer-while-held l1) {h_act})\n", SINGLE_M[..nk].join(" ")));
+            cfg.push_str(&format!("(deflayer l1 {} 1 _ _)\n", SINGLE_M[..nk].join(" ")));
+            if vk_collide {
+                cfg.push_str(&format!("(defvirtualkeys {})\n", (0..=48).map(|i| format!("v{i} XX")).collect::<Vec<_>>().join(" ")));
+            }
             let mut ents: Vec<String> = vec![];
             // each chord separately is disabled on l1 or not (a disabled chord next to an enabled
             // superset / subset of it is the interesting case)
@@ -78,10 +85,15 @@ impl Prop for C09 {
             // chords of one table may have different timeouts: the one that applies at any moment
             // is the shortest among the chords that can still be completed
             let mixed = r.chance(400);
+            // the chord action may be a macro that taps the marker: a chord that is performed twice
+            // is invisible with a plain key (one key, pressed once) but types the macro twice
+            let macro_actions = r.chance(300);
+            case.set("macro_actions", macro_actions as u8);
             let timeouts: Vec<u64> = table.iter().map(|_| if mixed && r.chance(500) { 4 * t } else { t }).collect();
             for (i, (ks, m)) in table.iter().enumerate() {
                 let names: Vec<&str> = ks.iter().map(|k| PK[*k]).collect();
-                ents.push(format!("({}) {m} {} {} ({})", names.join(" "), timeouts[i], release_beh[i], if disabled[i] { "l1" } else { "" }));
+                let act = if macro_actions { format!("(macro {m})") } else { m.to_string() };
+                ents.push(format!("({}) {act} {} {} ({})", names.join(" "), timeouts[i], release_beh[i], if disabled[i] { "l1" } else { "" }));
             }
             case.set("timeouts", timeouts.iter().map(|x| x.to_string()).collect::<Vec<_>>().join(","));
             case.set("disabled", disabled.iter().map(|d| if *d { "1" } else { "0" }).collect::<Vec<_>>().join(","));
@@ -178,7 +190,17 @@ impl Prop for C09 {
             // held past the timeout, or released early (the chord is then decided by the release)
             let early = r.chance(350);
             let hold = if early { r.range(1, t.saturating_sub(total + 2).max(1).min(12)) } else { 4 * t + 30 + r.range(0, 20) };
-            ops.push(Op::Gap(hold as u32));
+            if vk_collide && !early {
+                // while the chord is active a non-chord key taps the colliding virtual key
+                ops.push(Op::Gap((hold / 2) as u32));
+                ops.push(Op::Press(oscode_of("h")));
+                ops.push(Op::Gap(2));
+                ops.push(Op::Release(oscode_of("h")));
+                ops.push(Op::Gap((hold / 2) as u32));
+                case.set("vk_collide", 1);
+            } else {
+                ops.push(Op::Gap(hold as u32));
+            }
             let mut rel = set.clone();
             r.shuffle(&mut rel);
             let long_between = r.chance(400);
@@ -250,6 +272,18 @@ impl Prop for C09 {
             o.set_fail("C09:stuck-at-end", format!("still down: {:?}: {}", d.keys, outs_short(&outs)), vec![]);
         }
         let marker_presses: Vec<&OutEv> = outs.iter().filter(|e| e.kind == OutKind::Press && marker_set.iter().any(|(m, _)| *m == e.key)).collect();
+        let macro_actions = case.param_flag("macro_actions");
+        if macro_actions {
+            // every marker press has exactly one release (two runs of the same macro at once show
+            // as one press and two releases)
+            for (m, ks) in marker_set.iter().filter(|(_, ks)| ks.len() >= 2) {
+                let np = outs.iter().filter(|e| e.kind == OutKind::Press && e.key == *m).count();
+                let nr = outs.iter().filter(|e| e.kind == OutKind::Release && e.key == *m).count();
+                if np != nr {
+                    o.set_fail("C09:chord-action-performed-twice", format!("chord {ks:?} -> (macro {m}): {np} presses and {nr} releases of {m}: {}", outs_short(&outs)), vec![]);
+                }
+            }
+        }
         o.nontrivial = marker_presses.iter().any(|e| marker_set.iter().any(|(m, ks)| *m == e.key && ks.len() >= 2));
         // arrival times per key
         let codes: Vec<u16> = PK[..nk].iter().map(|k| oscode_of(k)).collect();
@@ -368,7 +402,7 @@ impl Prop for C09 {
                             format!("{} T={t}: keys {:?} pressed at {:?} (span {span} < T): expected only {want}, got {got:?}: {}", if v2 { "defchordsv2" } else { "defchords" }, ks, presses, outs_short(&outs)),
                             vec![],
                         );
-                    } else {
+                    } else if !macro_actions {
                         // released no later than shortly after the last participant's release
                         let last_rel = releases.iter().map(|x| x.0).max().unwrap_or(0);
                         let first_rel = releases.iter().map(|x| x.0).min().unwrap_or(0);
